@@ -402,7 +402,8 @@ def cub_case(draw, tier="quick"):
             "mode": draw(st.sampled_from(["generic", "generic", "through_vertices", "through_edge_midpoints", "parallel_to_face", "in_face_plane", "miss"])),
             "other": draw(st.sampled_from(["line", "segment"])), "coll": draw(st.sampled_from([False, False, True])),
             "derive": draw(st.sampled_from(Z.DERIVATIONS)), "move": [draw(st.integers(-4, 4)) for _ in range(3)],
-            "es": [draw(st.sampled_from([0, 0, 1, 2, 3])), draw(st.sampled_from([0, 0, 1, 2, 3]))]}
+            "es": [draw(st.sampled_from([0, 0, 1, 2, 3])), draw(st.sampled_from([0, 0, 1, 2, 3]))],
+            "axis": draw(st.sampled_from([None, None, [1, 1], [2, -1], [-1, 3], [1, 0], [3, 2], [-2, -2]]))}
 
 
 def run_cub(c):
@@ -415,6 +416,10 @@ def run_cub(c):
         raise Skip("degenerate")
     x = np.cross(u, w)
     o = np.array(v[6:9], float)
+    if c.get("axis") is not None:
+        # an axis-parallel cube with edge 2 at a lattice point: face vertices, hit points (half-integers in box units) and
+        # the directions of the lines are all on a coarse lattice, where coincidences (a ray through a vertex) are common
+        u, w, x = np.array([2.0, 0.0, 0.0]), np.array([0.0, 2.0, 0.0]), np.array([0.0, 0.0, 2.0])
     cub, f = call("Cuboid", Z.derive_moved, lambda rows: Cuboid(*[Point(r) for r in rows]), np.array([np.append(q, 1.0) for q in (o, o + u, o + w, o + x)]),
                   c.get("derive"), c.get("move", [1, 2, 3]), None, lambda c0: c0.intersect(Line(P(o), P(o + u + w + x))))
     if f:
@@ -459,7 +464,18 @@ def run_cub(c):
     world = lambda b: o + float(b[0]) * u + float(b[1]) * w + float(b[2]) * x  # noqa: E731
     X1, X2 = world(p), world(q)
     other = Line(P(X1), P(X2)) if c["other"] == "line" else SEG(X1, X2)
-    site = f"cuboid:{c['other']}:{mode}"
+    site = f"cuboid:{c['other']}:{mode}" + (":lattice-cube" if c.get("axis") is not None else "")
+    if c.get("axis") is not None:
+        # first another query on the same solid: a line parallel to two faces that passes above the cube (no common point)
+        ax = c["axis"]
+        if len(ax) != 2 or not any(ax) or any(not isinstance(t, int) or abs(t) > 3 for t in ax):
+            raise Skip("malformed")
+        Y1 = world([Fraction(1, 2), Fraction(1, 2), Fraction(3)])
+        r0, f = call("cuboid:line-above-the-cube", cub.intersect, Line(P(Y1), P(Y1 + np.array([float(ax[0]), float(ax[1]), 0.0]))))
+        if f:
+            return [f]
+        if len(list(r0)) != 0:
+            return [Fail("MISMATCH", "cuboid:line-above-the-cube:0-points", str([np.asarray(t.array).tolist() for t in r0])[:300])]
     r, f = call(site, cub.intersect, other)
     if f:
         return [f]
@@ -576,7 +592,7 @@ LAWS = [
         lambda c: [c["other"], f"members{len(c['members'])}"] + (["mixed-parallel-and-piercing"] if {"parallel", "pierce"} <= {m["mode"] for m in c["members"]} else []) + (["all-parallel"] if {m["mode"] for m in c["members"]} == {"parallel"} else []) + (["member-in-the-plane"] if any(m["mode"] == "inplane" for m in c["members"]) and len(c["members"]) > 1 else []),
         {"quick": 800, "thorough": 15000}, "one 3D polygon against line / segment collections mixing piercing, missing, parallel and too short members: exactly the piercing points inside the polygon", shard=200,
         mandatory=("mixed-parallel-and-piercing", "member-in-the-plane")),
-    Law("cuboids", lambda tier: cub_case(tier), run_cub, lambda c: c["mode"] != "generic", lambda c: [c["other"], c["mode"]] + (["derived-from-a-queried-object"] if c.get("derive") else []), {"quick": 600, "thorough": 10000},
+    Law("cuboids", lambda tier: cub_case(tier), run_cub, lambda c: c["mode"] != "generic", lambda c: [c["other"], c["mode"]] + (["derived-from-a-queried-object"] if c.get("derive") else []) + (["lattice-cube-after-a-parallel-line"] if c.get("axis") is not None else []), {"quick": 900, "thorough": 12000},
         "cuboid.intersect(line|segment) vs slab method: two face points, vertex/edge contact once, parallel, in a face plane, miss", shard=60),
 ]
 
